@@ -37,31 +37,61 @@ theorem emod_unique {a b r : ℤ} (k : ℤ) (h0 : 0 ≤ r) (h1 : r < b) (h : a =
   rw [Int.add_mul_emod_self_right]
   exact Int.emod_eq_of_lt h0 h1
 
-theorem tmod_fix {a b : ℤ} (hb : 0 < b) :
-    (if a.tmod b < 0 then a.tmod b + b else a.tmod b) = a % b := by
-  rw [Int.tmod_eq_emod]
-  have h0 := Int.emod_nonneg a hb.ne'
-  have h1 := Int.emod_lt_of_pos a hb
-  have hn : (b.natAbs : ℤ) = b := by omega
-  split_ifs <;> omega
+/-- `abs(a) % abs(b)`, negated for a negative dividend, then lifted by `b` when negative:
+    the non-negative remainder (exact integer arithmetic, any size). -/
+theorem absmod_fix {a b : ℤ} (hb : 0 < b) :
+    (if a < 0 then
+        (if -(Int.fmod (Py.absI a) (Py.absI b)) < 0 then -(Int.fmod (Py.absI a) (Py.absI b)) + b
+         else -(Int.fmod (Py.absI a) (Py.absI b)))
+      else
+        (if Int.fmod (Py.absI a) (Py.absI b) < 0 then Int.fmod (Py.absI a) (Py.absI b) + b
+         else Int.fmod (Py.absI a) (Py.absI b))) = a % b := by
+  have hab : Py.absI b = b := by unfold Py.absI; rw [if_neg (by omega)]
+  rw [hab]
+  simp only [Int.fmod_eq_emod_of_nonneg _ hb.le]
+  by_cases ha : a < 0
+  · have haa : Py.absI a = -a := by unfold Py.absI; rw [if_pos ha]
+    rw [if_pos ha, haa]
+    have h0 := Int.emod_nonneg (-a) hb.ne'
+    have h1 := Int.emod_lt_of_pos (-a) hb
+    have h2 := Int.emod_add_mul_ediv (-a) b
+    split_ifs with hc
+    · symm; apply emod_unique (-((-a) / b) - 1) (by omega) (by omega)
+      have : (-(-a / b) - 1) * b = -(b * (-a / b)) - b := by ring
+      rw [this]; omega
+    · have hz : (-a) % b = 0 := by omega
+      symm; apply emod_unique (-((-a) / b)) (by omega) (by omega)
+      have : -(-a / b) * b = -(b * (-a / b)) := by ring
+      rw [this]; omega
+  · have haa : Py.absI a = a := by unfold Py.absI; rw [if_neg ha]
+    rw [if_neg ha, haa]
+    have h0 := Int.emod_nonneg a hb.ne'
+    rw [if_neg (by omega)]
 
 theorem mod_II_eq_emod (a b : ℤ) (hb : 0 < b) : mod_II a b = a % b := by
   unfold mod_II
-  simp only [truncQ_intCast]
   have hbne : b ≠ 0 := hb.ne'
-  have e1 := tmod_fix (a := a - b) hb
-  have e2 := tmod_fix (a := a + b) hb
+  have e1 := absmod_fix (a := a - b) hb
+  have e2 := absmod_fix (a := a + b) hb
   have s1 : (a - b) % b = a % b := Int.sub_emod_right a b
   have s2 : (a + b) % b = a % b := Int.add_emod_right a b
-  split_ifs at e1 e2 ⊢ <;> first
-    | omega
-    | (symm; apply emod_unique 1 <;> omega)
-    | (symm; apply emod_unique (-1) <;> omega)
-    | (symm; apply emod_unique 0 <;> omega)
+  simp only []
+  by_cases h1 : a ≥ b
+  · rw [if_pos h1]
+    by_cases h2 : a - b < b
+    · rw [if_pos h2]; symm; apply emod_unique 1 <;> omega
+    · rw [if_neg h2, if_neg hbne, e1, s1]
+  · rw [if_neg h1]
+    by_cases h3 : a < 0
+    · rw [if_pos h3]
+      by_cases h4 : a + b ≥ 0
+      · rw [if_pos h4]; symm; apply emod_unique (-1) <;> omega
+      · rw [if_neg h4, if_neg hbne, e2, s2]
+    · rw [if_neg h3]; symm; apply emod_unique 0 <;> omega
 
 theorem mod_II_zero (a : ℤ) : mod_II a 0 = 0 := by
   unfold mod_II
-  simp only [truncQ_intCast]
+  simp only []
   split_ifs <;> omega
 
 theorem intCast_div_floor (a b : ℤ) (hb : 0 < b) : ⌊(a : ℚ) / (b : ℚ)⌋ = a / b := by
